@@ -2,6 +2,7 @@ import PikaVerif.Props.C14
 import PikaVerif.Props.C14q
 import PikaVerif.Lemmas.StopT
 import PikaVerif.Lemmas.StopT2
+import PikaVerif.Lemmas.StopT3
 /-!
 # C14t — termination of the stop_state operations (follow-up of C14 / C14p / C14q)
 
@@ -261,6 +262,56 @@ theorem C14t_final_state (s : St) (hr : ReachableP s) (hm : Maximal s) :
     · rcases hB.deqRuns c hd h0 with hpc | hpc <;>
         rcases hidle (s.owner c) with h | h <;> rw [h] at hpc <;> simp at hpc
     · omega
+
+/-- **Why a callback was invoked** (every reachable state): an invoked callback was taken from the
+    list by request_stop, or was run from its constructor (recorded at the constructor's finished
+    store), or that inline run is still in progress. -/
+theorem C14t_invoked_why (s : St) (hr : Reachable s) (c : Nat) (h : 0 < s.runs c) :
+    s.deqd c = true ∨ s.ranInl c = true ∨ inlRun s c := by
+  obtain ⟨n, K, ident, fc, srcs, log, hl⟩ := hr
+  exact (invRun_of_accepted hl).ranWhy c h
+
+/-- **Invoked exactly once or never, and which** (maximal runs).  In a reachable maximal state a
+    callback was invoked exactly once if request_stop took it from the list or its constructor ran
+    it inline, and never otherwise.  In particular a callback whose destructor **returned before
+    request_stop dequeued it** (unlinked by `remove_callback`) was never invoked, and without a
+    stop request nothing was dequeued. -/
+theorem C14t_invoked_iff (s : St) (hr : ReachableP s) (hm : Maximal s) (c : Nat) :
+    (s.runs c = 1 ↔ (s.deqd c = true ∨ s.ranInl c = true)) ∧
+    (s.runs c = 0 ↔ (s.deqd c = false ∧ s.ranInl c = false)) ∧
+    (s.req = false → s.deqd c = false) := by
+  have hidle := C14_no_deadlock s hr hm
+  have hR := hr.reachableF.reachable
+  obtain ⟨hA, hB⟩ := invAB_of_reachable hR
+  have hle := hB.runsLe c
+  have h1 : s.deqd c = true → s.runs c = 1 := by
+    intro hd
+    by_cases h0 : s.runs c = 0
+    · rcases hB.deqRuns c hd h0 with hpc | hpc <;>
+        rcases hidle (s.owner c) with h | h <;> rw [h] at hpc <;> simp at hpc
+    · omega
+  have h2 : s.ranInl c = true → s.runs c = 1 := hB.inlRuns c
+  have h3 : 0 < s.runs c → s.deqd c = true ∨ s.ranInl c = true := by
+    intro h
+    rcases C14t_invoked_why s hR c h with h | h | ⟨a, h⟩
+    · exact Or.inl h
+    · exact Or.inr h
+    · rcases hidle a with h' | h' <;> rw [h'] at h <;> simp at h
+  refine ⟨⟨fun h => h3 (by omega), fun h => h.elim h1 h2⟩, ⟨fun h => ?_, fun h => ?_⟩, fun hq => ?_⟩
+  · cases hd : s.deqd c
+    · cases hi : s.ranInl c
+      · exact ⟨rfl, rfl⟩
+      · have := h2 hi; omega
+    · have := h1 hd; omega
+  · by_cases h0 : s.runs c = 0
+    · exact h0
+    · rcases h3 (by omega) with h' | h'
+      · rw [h.1] at h'; simp at h'
+      · rw [h.2] at h'; simp at h'
+  · cases hd : s.deqd c
+    · rfl
+    · have := hB.deqWinner c hd
+      rw [hA.winReq hq] at this; simp at this
 
 /-- a maximal state accepts only moves of the program: a run is over when the program has no
     operation left to invoke -/
